@@ -258,3 +258,128 @@ package transports
 //@   dyncall fn noeffect
 //@   modifies *
 //@   ensures [C12.ws.close] calls((*types.WebSocketConn).Close) == 1 && (fn != nil ==> calls(fn) == 1 && before(fn, 1, (*types.WebSocketConn).Close, 1))
+
+// ---- webtransport transport (C01 outbound): the send loop has the same shape as the websocket one. The per-message
+// writer and the prepared-message path drive the framing layer of package webtransport, whose write paths are proved
+// under C13/C14; here they are summarised (trusted), and the reader loop (message) is not under contract.
+//@ spec wtOK(w *webTransport) bool = w != nil && w.Transport != nil && wtcOK(w.session)
+//@ func (*webTransport).write(data, arg1)
+//@   trusted "drives NextWriter/io.Copy/Close of the framing layer (connection typestate proved in package webtransport, C13); summarised here as: no effect on transport-level state"
+//@   requires wtOK(w) && data != nil
+//@   modifies nothing
+//@ func (*webTransport).Send(packets)
+//@   props C01
+//@   requires w != nil && w.Transport != nil
+//@   modifies w.Transport.$writable
+//@   ensures [C01.wt.sendclears] !w.Transport.$writable
+//@   callsite (*webTransport).send#1
+//@     assert [C01.wt.sendbatch] $packets == packets && !w.Transport.$writable
+//@ func (*webTransport).send(packets)
+//@   props C01, C09
+//@   requires wtOK(w)
+//@   requires forall k int :: 0 <= k && k < len(packets) ==> packets[k] != nil
+//@   modifies *
+//@   loop 1 invariant wtOK(w) && calls(types.EventEmitter.Emit) == 0
+//@   loop 1 invariant forall k int :: 0 <= k && k < len(packets) ==> packets[k] != nil
+//@   loop 1 invariant calls((*webtransport.Conn).WritePreparedMessage) + calls((*webTransport).write) == $i
+//@   ensures [C01.wt.all]   calls(types.EventEmitter.Emit) == 2 ==> calls((*webtransport.Conn).WritePreparedMessage) + calls((*webTransport).write) == len(packets)
+//@   ensures [C01.wt.ready] emitted(w.Transport, "drain") == 1 && emitted(w.Transport, "ready") == 1 && ncalls(Transport.SetWritable, writable) == 1
+//@   callsite (*webTransport).write#1
+//@     assert [C01.wt.encoded] $data == ret(parser.Parser.EncodePacket, 1, 0) && ret(parser.Parser.EncodePacket, 1, 1) == nil && arg(parser.Parser.EncodePacket, 1, packet) == packet
+//@   callsite webtransport.NewPreparedMessage#1
+//@     assert [C01.wt.prekind]  $messageType == (typeis(packet.Options.WsPreEncodedFrame, *types.StringBuffer) ? webtransport.TextMessage : webtransport.BinaryMessage)
+//@     assert [C01.wt.prebytes] $data == ret(types.BufferInterface.Bytes, 1) && arg(types.BufferInterface.Bytes, 1, this) == packet.Options.WsPreEncodedFrame
+//@   callsite (*webtransport.Conn).WritePreparedMessage#1
+//@     assert [C01.wt.prewrite] $pm == ret(webtransport.NewPreparedMessage, 1, 0) && ret(webtransport.NewPreparedMessage, 1, 1) == nil
+
+// ---- polling responses (C16), batch hand-over (C01), close packet last (C12) ------------------------------------------
+//@ func Polling.DoWrite(ctx, data, options, callback)
+//@   modifies *
+//@ func (*polling).send(packets)
+//@   props C16, C01, C12
+//@   requires p != nil && p.Transport != nil
+//@   requires forall k int :: 0 <= k && k < len(packets) ==> packets[k] != nil
+//@   dyncall shouldClose noeffect
+//@   modifies *
+//@   loop 1 invariant !option.Compress && option != nil
+//@   loop 1 invariant forall k int :: 0 <= k && k < len(packets) ==> packets[k] != nil
+//@   loop 1 invariant forall k int :: 0 <= k && k < $i ==> !(packets[k].Options != nil && packets[k].Options.Compress)
+//@   ensures [C01.poll.onewrite] calls((*polling).write) == 1 && calls(parser.Parser.EncodePayload) == 1 && arg((*polling).write, 1, data) == ret(parser.Parser.EncodePayload, 1, 0)
+//@   ensures [C12.poll.closeonce] old(p.shouldClose.v) != nil ==> p.shouldClose.v == nil
+//@   callsite parser.Parser.EncodePayload
+//@     assert [C16.payload.batch,C01.poll.batch] old(p.shouldClose.v) == nil ==> backing($packets) == backing(old(packets)) && off($packets) == off(old(packets)) && len($packets) == len(old(packets))
+//@     assert [C12.poll.closelast] old(p.shouldClose.v) != nil ==> len($packets) == len(old(packets)) + 1 && $packets[len(old(packets))].Type == packet.CLOSE
+//@     assert [C12.poll.closekeeps] old(p.shouldClose.v) != nil ==> forall k int :: 0 <= k && k < len(old(packets)) ==> $packets[k] == old(packets[k])
+//@   callsite (*polling).write
+//@     assert [C16.flag.fresh] fresh($options)   // the compress request is computed per batch, it does not outlive the flush
+//@     assert [C16.flag.none]  !$options.Compress ==> forall k int :: 0 <= k && k < len(packets) ==> !(packets[k].Options != nil && packets[k].Options.Compress)
+//@     assert [C16.flag.some]  $options.Compress ==> packetData != nil && packetData.Options != nil && packetData.Options.Compress
+
+//@ func (*polling).write(data, options)
+//@   props C16, C01
+//@   requires p != nil && p.Transport != nil
+//@   modifies *
+//@   ensures [C16.write.noreq]  old(p.req.v) == nil ==> calls(Transport.OnError) == 1 && arg(Transport.OnError, 1, msg) == "polling write error" && calls(Polling.DoWrite) == 0
+//@   ensures [C16.write.answer] old(p.req.v) != nil ==> calls(Polling.DoWrite) == 1 && arg(Polling.DoWrite, 1, ctx) == old(p.req.v) && arg(Polling.DoWrite, 1, data) == data && arg(Polling.DoWrite, 1, options) == options
+
+// the write callback: an error is reported as a transport error, success as drain - exactly one of the two
+//@ func (*polling).write$1(err)
+//@   props C16, C18
+//@   requires p != nil && p.Transport != nil
+//@   modifies *
+//@   ensures [C16.cb.error] err != nil ==> calls(Transport.OnError) == 1 && emitted(p.Transport, "drain") == 0
+//@   ensures [C16.cb.drain] err == nil ==> calls(Transport.OnError) == 0 && emitted(p.Transport, "drain") == 1
+
+// Content-Type follows the kind of the body; the body is compressed only when compression is configured, the batch asks
+// for it, the payload reaches the threshold and the request names a supported coding; Content-Length is the length of the
+// buffer that is sent, Content-Encoding is present exactly on compressed bodies and names the coding used
+//@ func (*polling).DoWrite(ctx, data, options, callback)
+//@   props C16
+//@   requires p != nil && p.Transport != nil && ctxOK(ctx) && data != nil
+//@   dyncall callback noeffect
+//@   modifies *
+//@   let hc       = p.Transport.HttpCompression()
+//@   let wanted   = hc != nil && options != nil && old(options.Compress)
+//@   ensures [C16.ctype]     mapval(arg(utils.NewParameterBag, 1, parameters), "Content-Type")[0] == (typeis(data, *types.StringBuffer) ? "text/plain; charset=UTF-8" : "application/octet-stream") && len(mapval(arg(utils.NewParameterBag, 1, parameters), "Content-Type")) == 1
+//@   ensures [C16.off]       !wanted ==> calls((*polling).compress) == 0 && calls(respond) == 1 && arg(respond, 1, data) == data && ncalls((*utils.ParameterBag).Set, key == "Content-Encoding") == 0
+//@   ensures [C16.gated]     calls((*polling).compress) == 1 ==> wanted && ret(types.BufferInterface.Len, 1) >= old(hc.Threshold) && ret(utils.Contains, 1) != "" && arg((*polling).compress, 1, encoding) == ret(utils.Contains, 1) && arg((*polling).compress, 1, data) == data
+//@   ensures [C16.threshold] wanted && ret(types.BufferInterface.Len, 1) < old(hc.Threshold) ==> calls((*polling).compress) == 0 && arg(respond, 1, data) == data
+//@   ensures [C16.accept]    calls(utils.Contains) == 1 ==> arg(utils.Contains, 1, haystack) == uf_s_peek(ctx.headers, "Accept-Encoding", old(ctx.headers.$bagver)) && len(arg(utils.Contains, 1, needles)) == 4
+//@   ensures [C16.nocoding]  calls(utils.Contains) == 1 && ret(utils.Contains, 1) == "" ==> calls((*polling).compress) == 0 && arg(respond, 1, data) == data && ncalls((*utils.ParameterBag).Set, key == "Content-Encoding") == 0
+//@   ensures [C16.compressed] calls((*polling).compress) == 1 && ret((*polling).compress, 1, 1) == nil ==> calls(respond) == 1 && arg(respond, 1, data) == ret((*polling).compress, 1, 0) && ncalls((*utils.ParameterBag).Set, key == "Content-Encoding" && value == ret(utils.Contains, 1)) == 1
+//@   ensures [C16.compressfail] calls((*polling).compress) == 1 && ret((*polling).compress, 1, 1) != nil ==> calls(respond) == 0 && calls((*types.HttpContext).Write) == 1 && arg((*types.HttpContext).SetStatusCode, 1, statusCode) == 500 && calls(callback) == 1 && arg(callback, 1, 0) == ret((*polling).compress, 1, 1)
+//@   ensures [C16.oneanswer]  calls(respond) + calls((*types.HttpContext).Write) == 1
+//@   callsite respond
+//@     assert [C16.length]    $length == uf_s_Itoa($data.Len())
+
+//@ func (*polling).DoWrite.respond(data, length)
+//@   props C16, C11
+//@   requires p != nil && p.Transport != nil && ctxOK(ctx) && headers != nil && data != nil
+//@   dyncall callback noeffect
+//@   dyncall Cleanup noeffect
+//@   modifies *
+//@   ensures [C16.respond.length] ncalls((*utils.ParameterBag).Set, key == "Content-Length" && value == length && p == headers) == 1
+//@   ensures [C16.respond.body]   calls(io.Copy) == 1 && arg(io.Copy, 1, src) == iface(data) && arg(io.Copy, 1, dst) == iface(ctx)
+//@   ensures [C16.respond.status] calls((*types.HttpContext).SetStatusCode) == 1 && arg((*types.HttpContext).SetStatusCode, 1, statusCode) == 200
+//@   ensures [C16.respond.headers] calls((*polling).headers) == 1 && arg((*polling).headers, 1, headers) == headers && before((*utils.ParameterBag).Set, 1, (*polling).headers, 1) && before((*polling).headers, 1, io.Copy, 1)
+//@   ensures [C16.respond.done,C11.cleanupfirst] calls(callback) == 1 && arg(callback, 1, 0) == nil && before(io.Copy, 1, callback, 1)
+
+// per coding the writer of that coding: HTTP "deflate" is the zlib format (RFC 9110 section 8.4.1.2), not raw flate
+//@ func (*polling).compress(data, encoding)
+//@   props C16
+//@   requires p != nil && data != nil
+//@   modifies *
+//@   ensures [C16.gzip]    encoding == "gzip"    ==> calls(gzip.NewWriterLevel) == 1 && calls(zlib.NewWriterLevel) == 0 && calls(flate.NewWriter) == 0 && calls(brotli.NewWriterLevel) == 0 && calls(zstd.NewWriter) == 0
+//@   ensures [C16.deflate] encoding == "deflate" ==> calls(zlib.NewWriterLevel) == 1 && calls(gzip.NewWriterLevel) == 0 && calls(flate.NewWriter) == 0 && calls(brotli.NewWriterLevel) == 0 && calls(zstd.NewWriter) == 0
+//@   ensures [C16.br]      encoding == "br"      ==> calls(brotli.NewWriterLevel) == 1 && calls(gzip.NewWriterLevel) == 0 && calls(zlib.NewWriterLevel) == 0 && calls(flate.NewWriter) == 0 && calls(zstd.NewWriter) == 0
+//@   ensures [C16.zstd]    encoding == "zstd"    ==> calls(zstd.NewWriter) == 1 && calls(gzip.NewWriterLevel) == 0 && calls(zlib.NewWriterLevel) == 0 && calls(flate.NewWriter) == 0 && calls(brotli.NewWriterLevel) == 0
+//@   ensures [C16.source]  result1 == nil && (encoding == "gzip" || encoding == "deflate" || encoding == "br" || encoding == "zstd") ==> calls(io.Copy) == 1 && arg(io.Copy, 1, src) == iface(data) && result0 == ret(types.NewBytesBuffer, 1)
+//@   ensures [C16.closed]  result1 == nil && encoding == "gzip" ==> calls((*gzip.Writer).Close) == 1
+//@   ensures [C16.closedz] result1 == nil && encoding == "deflate" ==> calls((*zlib.Writer).Close) == 1
+
+//@ func (*polling).headers(ctx, headers)
+//@   props C17, C16
+//@   requires p != nil && p.Transport != nil && ctx != nil && headers != nil
+//@   modifies *
+//@   ensures [C17.headers.once] emitted(p.Transport, "headers") == 1 && result == headers
+//@   ensures [C16.nostore]      ncalls((*utils.ParameterBag).Set, key == "Cache-Control" && value == "no-store") == 1
